@@ -431,7 +431,7 @@ fn check_text(cx: &mut Ctx, src: &str) {
 
 /// token-corpus inputs used: everything in the thorough tier, everything before the K4 length-6 tier in the quick tier
 fn text_total(tier: Tier) -> u64 {
-    tier.pick(pipeline::total_before_len6(tier), pipeline::total(tier, false))
+    tier.pick(pipeline::total_before_len6(tier), pipeline::total_before(tier, "k4-len7"))
 }
 
 fn input_by_name(name: &str) -> V {
@@ -540,7 +540,7 @@ impl Property for C06 {
         let s = spaces(tier);
         Meta {
             rule: format!(
-                "every program of the C01 corpora ({} + {} + {} + {} reapply-loop + {} call-nesting programs): static = worklist search of all abstract states (pc, operand depth, side-effect depth) reachable from the program entry and from every expression constant over the real instruction stream, invariants depth>=operand need, one depth per pc, EndExpression at depth exactly 1 outside side effects; dynamic = execution on SimpleGarnishData and BasicGarnishData with inputs 5 and (:a = 1, :b = 2), after every real step the observed operand/value/frame depths equal the abstract model's prediction and the run ends balanced; reapply loops iterate 0..4 times (T3) and as often as their guards allow (T4); a run that has not ended after 3 000 steps is not judged. The same two checks run on every input of the C03/C04 token corpora (K1 token-class sequences, K2 character strings, K4 small-scope tiers - up to length 5 in the quick tier, all of them in the thorough tier; {} inputs) that the pipeline accepts and that does not contain `;;` (input 5). Non-trivial = statically balanced program with at least one operator / accepted token input.",
+                "every program of the C01 corpora ({} + {} + {} + {} reapply-loop + {} call-nesting programs): static = worklist search of all abstract states (pc, operand depth, side-effect depth) reachable from the program entry and from every expression constant over the real instruction stream, invariants depth>=operand need, one depth per pc, EndExpression at depth exactly 1 outside side effects; dynamic = execution on SimpleGarnishData and BasicGarnishData with inputs 5 and (:a = 1, :b = 2), after every real step the observed operand/value/frame depths equal the abstract model's prediction and the run ends balanced; reapply loops iterate 0..4 times (T3) and as often as their guards allow (T4); a run that has not ended after 3 000 steps is not judged. The same two checks run on every input of the C03/C04 token corpora (K1 token-class sequences, K2 character strings, K4 small-scope tiers - up to length 5 in the quick tier, up to length 6 in the thorough tier; {} inputs) that the pipeline accepts and that does not contain `;;` (input 5). Non-trivial = statically balanced program with at least one operator / accepted token input.",
                 s.t1.len(), s.t2.len(), s.t3.len(), s.t4.len(), s.t5.len(), text_total(tier)
             ),
             assumptions: vec![
